@@ -281,7 +281,10 @@ def run(ctx: Ctx) -> None:
             uf = r.random() < 0.5
             ctx.begin_case("random", i, family=family, n_est=len(ests), n_gt=len(gts), uuid_first=uf)
             with ctx.case_guard("random"):
-                res = mgr_mod.get_object_results(EvaluationTask.CLASSIFICATION2D, ests, gts, uuid_matching_first=uf)
+                # (the label policy governs geometric matching; a classification answer is right iff the labels are equal)
+                from perception_eval.evaluation.matching import MatchingLabelPolicy
+
+                res = mgr_mod.get_object_results(EvaluationTask.CLASSIFICATION2D, ests, gts, uuid_matching_first=uf, matching_label_policy=r.choice(list(MatchingLabelPolicy)))
                 score_all(ctx, res, gts, family, labels[:3])
                 ctx.case((family, uf, "rnd", min(len(ests), 5), min(len(gts), 5)), nontrivial=bool(ests) and bool(gts))
 
